@@ -339,7 +339,11 @@ where
 
                 let mut info_hashes_by_worker: BTreeMap<usize, Vec<InfoHash>> = BTreeMap::new();
 
-                for info_hash in info_hashes.into_iter() {
+                // Limit number of torrents here, since the request is split
+                // up and each swarm worker only sees its own part
+                let max_scrape_torrents = self.config.protocol.max_scrape_torrents;
+
+                for info_hash in info_hashes.into_iter().take(max_scrape_torrents) {
                     let info_hashes = info_hashes_by_worker
                         .entry(calculate_request_consumer_index(&self.config, info_hash))
                         .or_default();
